@@ -233,7 +233,27 @@ func runC03(ctx *Ctx) *Report {
 			}
 		}
 	}
-	runCases(rep, cases, ctx.Workers, func(c Case) bool { return nonTrivialEnc(c.Tree) })
+	// large single-root shapes under every branch format
+	for _, name := range []string{"deep", "wide", "long-names"} {
+		t := bigShapes()[name][0]
+		for fi, fm := range formats {
+			c := newCase("rootout")
+			c.Tree, c.Fmt, c.Alias, c.Note = t.Enc(), fm, fi%2 == 0, "big:"+name
+			cases = append(cases, c)
+			if fi%4 == 0 {
+				c = newCase("rootwalk")
+				c.Tree, c.Fmt, c.Note = t.Enc(), fm, "big:"+name
+				cases = append(cases, c)
+				c = newCase("rootiter")
+				c.Tree, c.Fmt, c.Note = t.Enc(), fm, "big:"+name
+				cases = append(cases, c)
+				c = newCase("rootf")
+				c.Tree, c.Format, c.Note = t.Enc(), []string{"json", "yaml", "toml"}[fi%3], "big:"+name
+				cases = append(cases, c)
+			}
+		}
+	}
+	runCases(rep, cases, ctx.Workers, func(c Case) bool { return c.Note != "" || nonTrivialEnc(c.Tree) })
 	// 2. Add programs: both API families on the real code, in every order incl. repeated Adds
 	var rels []relC03
 	nprog := 1500
